@@ -2,6 +2,7 @@
 //! (one per engine or engine group, so that they build independently with `cargo build --bin`).
 pub mod chanq;
 pub mod chkalloc;
+pub mod leakchk;
 pub mod dump;
 pub mod peephole;
 pub mod run;
